@@ -62,7 +62,12 @@ impl ConstraintVal {
                     false
                 }
             }
-            ConstraintValArm::Exact(expected) => val.equal(expected).unwrap_or(false),
+            // A named constraint used as an alternative admits what it
+            // admits on its own.
+            ConstraintValArm::Exact(expected) => match expected.as_ref() {
+                Val::Constraint(inner) => inner.check(val),
+                _ => val.equal(expected).unwrap_or(false),
+            },
         })
     }
 }
